@@ -2634,11 +2634,13 @@ where
                 w.write_signed_counted(effective_bps, *sample)?;
             }
 
-            w.write_count(
+            // stored as precision - 1; a 1-bit precision is valid
+            // (and is accepted by the parser), so subtract on the plain count
+            w.write_count::<0b1111>(
                 precision
-                    .checked_sub::<0b1111>(1)
-                    .ok_or(Error::InvalidQlpPrecision)?
-                    .count(),
+                    .count()
+                    .checked_sub(1)
+                    .ok_or(Error::InvalidQlpPrecision)?,
             )?;
 
             w.write::<5, i32>(i32::try_from(*shift).unwrap())?;
